@@ -110,10 +110,15 @@ M_C15(cfg, meta, pre, r, post, g) ==
 \* C20: a call that was suspended inside its body and is resumed stores its result normally -
 \* against the state as it is NOW - and a result that is not to be stored changes nothing
 M_C20(cfg, meta, pre, r, post, g) ==
-  (r.ev = "fin" /\ "task" \in DOMAIN r /\ r.task # "" /\ ~r.panic) =>
-     IF ShouldStore(meta, r)
-     THEN Stored(r, post) \/ MayVanish(cfg, pre, EngEvent(meta, r))
-     ELSE post = pre
+  /\ (r.ev = "fin" /\ "task" \in DOMAIN r /\ r.task # "" /\ ~r.panic) =>
+        IF ShouldStore(meta, r)
+        THEN Stored(r, post) \/ MayVanish(cfg, pre, EngEvent(meta, r))
+        ELSE post = pre
+  \* up to its first await the call has only performed its lookup: nothing is stored, nothing but an
+  \* expired entry for its own key is removed (so a later drop leaves no trace of the call)
+  /\ (r.ev = "get" /\ "task" \in DOMAIN r /\ r.task # "" /\ ~r.panic) =>
+        /\ Dom(post) \subseteq Dom(pre)
+        /\ Dom(pre) \ Dom(post) \subseteq ({r.k} \cap ExpiredKeys(cfg, WithGhostAges(pre, g)))
 
 WrapperMonitorIds == {"C01", "C03", "C09", "C10", "C11", "C14", "C15", "C20"}
 
